@@ -69,9 +69,9 @@ def main(argv):
             for prop in e["props"]:
                 env = dict(os.environ, VERIF_SRC_ROOT=os.path.join(scratch, "src"), VERIF_EVIDENCE_DIR=os.path.join(scratch, "ev"),
                            VERIF_REPLAY_DIR=os.path.join(scratch, "rp"))
-                if runs:
-                    env["VERIF_RUNS"] = runs
-                p = subprocess.run([os.path.join(VERIF, "check"), prop, "--tier", "quick"], env=env, capture_output=True, text=True)
+                if runs or e.get("runs"):
+                    env["VERIF_RUNS"] = runs or e["runs"]
+                p = subprocess.run([os.path.join(VERIF, "check"), prop, "--tier", e.get("tier", "quick")], env=env, capture_output=True, text=True)
                 viol = [l for l in p.stdout.splitlines() if l.startswith("VIOLATION")]
                 detail = [l.strip() for l in p.stdout.splitlines() if l.strip().startswith("oracle=")]
                 row["checks"][prop] = {"exit": p.returncode, "violations": len(viol), "first": detail[0][:160] if detail else None}
